@@ -213,6 +213,32 @@ impl Model {
     }
 }
 
+/// Layout collision root cause: the op's branch lives in an internal directory of another live branch
+/// (`<other>/data`, `<other>/_versions`, ...) – then every ref the op breaks is a victim of that collision
+/// (the other branch itself or anything that references its files) – or the victim (or one of its
+/// ancestors, whose files it references) lives in an internal directory of the op's branch.
+fn layout_collision(model: &Model, actor: &str, victim: &str) -> bool {
+    if actor.is_empty() || is_clone(actor) {
+        return false;
+    }
+    let inside = |inner: &str, outer: &str| INTERNAL_DIRS.iter().any(|d| inner == format!("{outer}/{d}"));
+    if model.live_branches().iter().any(|other| inside(actor, other)) {
+        return true;
+    }
+    // victim and its ancestors
+    let mut cur = victim.to_string();
+    for _ in 0..8 {
+        if inside(&cur, actor) {
+            return true;
+        }
+        match model.refs.get(&cur).and_then(|m| m.origin.clone()) {
+            Some((p, _)) if !p.is_empty() => cur = p,
+            _ => break,
+        }
+    }
+    false
+}
+
 /// relation of a victim ref to the ref an op ran on (for classification keys)
 fn relation(model: &Model, kind: &str, actor: &str, victim: &str) -> String {
     if actor == victim {
@@ -621,7 +647,7 @@ impl Sut for Refs {
             for (victim, ver, what) in problems {
                 let rel = relation(before_model, kind, &actor, &victim);
                 // one key per root-cause class; the symptom goes into `what`
-                let key = if rel.contains("internal-dir") {
+                let key = if rel.contains("internal-dir") || ((kind == "delete_branch" || kind == "cleanup") && layout_collision(before_model, &actor, &victim)) {
                     // `x/data`, `x/_versions`, ... live inside branch x's own directories
                     "layout/branch-named-like-internal-dir-of-other-branch".to_string()
                 } else if kind == "delete_branch" && rel == "char-prefix" {
@@ -681,10 +707,10 @@ impl Sut for Refs {
                         .max_by_key(|b| b.len())
                         .unwrap_or_default();
                     let rel = relation(&st.model, kind, name, &owner);
-                    let key = if rel == "char-prefix" {
-                        "delete_branch/cleanup-path-compares-characters".to_string()
-                    } else if rel.contains("internal-dir") {
+                    let key = if rel.contains("internal-dir") || layout_collision(&st.model, name, &owner) {
                         "layout/branch-named-like-internal-dir-of-other-branch".to_string()
+                    } else if rel == "char-prefix" {
+                        "delete_branch/cleanup-path-compares-characters".to_string()
                     } else {
                         format!("delete_branch/foreign-paths/{rel}")
                     };
